@@ -113,6 +113,82 @@ theorem xyz_load_one (T : Tables) (ls : List Str) (path : Nat) (fs : FS) :
       ∃ evs, st'.trace = .close :: (evs ++ [.openR]) ∧ LoadEvs evs :=
   reader_load_one _ _ _ _
 
+
+/-! ## SDF -/
+
+theorem sdf_seekEnd_good (sep : Str) : Good (Rd.Sdf.seekEnd sep) := by
+  intro total l hl
+  rcases l with ⟨rest, k⟩
+  unfold Rd.Sdf.seekEnd
+  simp only [Clean] at hl
+  induction rest generalizing k with
+  | nil => simp [Rd.Sdf.seekEndGo, Wf, Clean] at hl ⊢; omega
+  | cons x r ih =>
+    simp only [Rd.Sdf.seekEndGo]
+    by_cases hx : x = sep
+    · simp [hx, Clean] at hl ⊢; omega
+    · simp only [beq_iff_eq, hx, ↓reduceIte]
+      exact ih (k + 1) (by simp only [List.length_cons] at hl; omega)
+
+theorem sdf_good (T : Tables) (L : Rd.Sdf.Layout) : Good (Rd.Sdf.loadOne T L) := by
+  unfold Rd.Sdf.loadOne
+  refine good_bind good_next fun _ => good_bind good_next fun _ => good_bind good_next fun _ =>
+    good_bind good_next fun _ => good_bind (good_liftE _) fun _ => good_bind (good_liftE _) fun _ =>
+    good_bind (good_liftE _) fun _ => good_bind (good_liftE _) fun _ => good_bind (good_liftE _) fun _ =>
+    good_bind (good_repeatN (good_bind good_next fun _ => good_liftE _) _) fun _ =>
+    good_bind (good_liftE _) fun _ =>
+    good_bind (good_repeatN (good_bind good_next fun _ => good_liftE _) _) fun _ =>
+    good_bind (sdf_seekEnd_good _) fun _ => good_pure _
+
+/-- **sdf_terminates**: on any list of lines the SDF reader (atom loop and bond loop bounded by the counts it
+read, the `$$$$` search by the remaining lines) returns an object or raises a class of the enumeration, after at
+most `N + 1` reads. -/
+theorem sdf_terminates (T : Tables) (L : Rd.Sdf.Layout) (ls : List Str) :
+    ((∃ o, (Rd.Sdf.read T L ls).res = .ok o) ∨ (∃ c, (Rd.Sdf.read T L ls).res = .error c)) ∧
+    (Rd.Sdf.read T L ls).lineno ≤ ls.length + 1 := by
+  refine ⟨?_, run_lineno_le (sdf_good T L).fin ls⟩
+  cases (Rd.Sdf.read T L ls).res with
+  | ok o => exact Or.inl ⟨o, rfl⟩
+  | error c => exact Or.inr ⟨c, rfl⟩
+
+/-- **sdf_shapes**: a returned SDF result has `atcoords (natom, 3)`, `atnums (natom,)` and `bonds (nbond, 3)`,
+and passes the constructor. -/
+theorem sdf_shapes (T : Tables) (L : Rd.Sdf.Layout) (ls : List Str) (o : RObj)
+    (h : (Rd.Sdf.read T L ls).res = .ok o) :
+    ∃ n, o.natom = some n ∧ o.FullyConsistent n ∧ ctorE o = none := by
+  unfold Rd.Sdf.read run at h
+  rcases hm : Rd.Sdf.loadOne T L ⟨ls, 0⟩ with ⟨r, l'⟩
+  rw [hm] at h
+  simp only at h
+  subst h
+  unfold Rd.Sdf.loadOne at hm
+  obtain ⟨_, _, -, hm⟩ := bind_ok hm
+  obtain ⟨_, _, -, hm⟩ := bind_ok hm
+  obtain ⟨_, _, -, hm⟩ := bind_ok hm
+  obtain ⟨_, _, -, hm⟩ := bind_ok hm
+  obtain ⟨natom, _, -, hm⟩ := bind_ok hm
+  obtain ⟨nbond, _, -, hm⟩ := bind_ok hm
+  obtain ⟨_, _, -, hm⟩ := bind_ok hm
+  obtain ⟨_, _, -, hm⟩ := bind_ok hm
+  obtain ⟨_, _, -, hm⟩ := bind_ok hm
+  obtain ⟨_, _, -, hm⟩ := bind_ok hm
+  obtain ⟨_, _, -, hm⟩ := bind_ok hm
+  obtain ⟨_, _, -, hm⟩ := bind_ok hm
+  obtain ⟨_, _, -, hm⟩ := bind_ok hm
+  obtain ⟨ho, -⟩ := pure_ok hm
+  subst ho
+  refine ⟨natom.toNat, rfl, ⟨⟨?_, ?_, ?_, ?_, ?_, ?_⟩, ?_, ?_⟩, ?_⟩ <;>
+    simp [ctorE, ctorOk, RObj.natom, optShape, shapeMatch, lenOf]
+
+/-- **sdf_load_one**: `load_one` on any SDF file content returns an object with consistent shapes or raises
+`LoadError`; the file is closed. -/
+theorem sdf_load_one (T : Tables) (L : Rd.Sdf.Layout) (ls : List Str) (path : Nat) (fs : FS) :
+    ∃ st', runLoadOne loadOne (behOf (Rd.Sdf.read T L ls) ls.length) path fs
+        = (apiOutcome (Rd.Sdf.read T L ls), st') ∧
+      IsObjOrLoadError (apiOutcome (Rd.Sdf.read T L ls)) ∧ st'.fs = fs ∧
+      ∃ evs, st'.trace = .close :: (evs ++ [.openR]) ∧ LoadEvs evs :=
+  reader_load_one _ _ _ _
+
 /-! ### non-vacuity (the generated tables, evaluated by the kernel) -/
 
 example : (Rd.Xyz.read Gen.Layouts.tables
